@@ -59,7 +59,7 @@ template <class X, size_t... Is> FASTOR_INLINE auto lastint(X &x, int j, std::in
 template <class X, size_t... Is> FASTOR_INLINE decltype(auto) at(X &x, const int *i, std::index_sequence<Is...>) { return x(i[Is]...); }
 
 template <class T, size_t... S>
-void hist_thunk(const HArgs<T> &a) {
+void hist_thunk(const HArgs<T> &a) { vf::ArmedThunk vf_armed_;
   using Ten = Tensor<T, S...>; using Map = TensorMap<T, S...>;
   constexpr size_t n = Ten::size(), rank = sizeof...(S);
   constexpr size_t dims[] = {S...};
@@ -433,7 +433,7 @@ static const char *lay_name[] = {"Tensor(ptr)", "Tensor(ptr,RowMajor)", "Tensor(
                                  "Tensor(std::array,ColumnMajor)", "Tensor(std::vector,ColumnMajor)", "tocolumnmajor(x)", "torowmajor(x)", "torowmajor(tocolumnmajor(x))",
                                  "tocolumnmajor(torowmajor(x))", "tocolumnmajor(TensorMap)"};
 template <class T, size_t... S>
-void layout_thunk(const T *p, T *out) {
+void layout_thunk(const T *p, T *out) { vf::ArmedThunk vf_armed_;
   using Ten = Tensor<T, S...>; constexpr size_t n = Ten::size(), rank = sizeof...(S); constexpr size_t dims[] = {S...};
   auto emit = [&](int k, const Ten &t) { std::copy(t.data(), t.data() + n, out + (size_t)k * n); };
   { Ten t(p); emit(0, t); }
